@@ -235,6 +235,17 @@ impl Assembler {
         self.buffered
     }
 
+    /// (estimated allocated bytes, upper bound of distinct outstanding bytes, chunks held), for the
+    /// verification harness
+    #[cfg(feature = "__verif")]
+    pub(super) fn verif_memory(&self) -> (usize, u64, usize) {
+        (
+            self.allocated,
+            self.end.saturating_sub(self.bytes_read),
+            self.data.len(),
+        )
+    }
+
     /// Number of bytes consumed by the application
     pub(super) fn bytes_read(&self) -> u64 {
         self.bytes_read
